@@ -195,6 +195,16 @@ func TestVerifC10Conn(t *testing.T) {
 		if r.Intn(6) == 0 {
 			nf = 10 + r.Intn(30) // a long pipelined burst
 		}
+		// a sweep: one pipelined burst, answered out of the fill buffer with no flush in
+		// between, whose staged bytes (prefix + payload, cumulatively) land on the drain
+		// buffer's size -3..+3 at some reply
+		sweep := r.Intn(4) == 0
+		sweepAt, sweepDelta, staged := 0, 0, 0
+		if sweep {
+			nf = 2 + r.Intn(5)
+			sweepAt = 1 + r.Intn(nf-1)
+			sweepDelta = r.Intn(7) - 3
+		}
 		var frames [][]byte
 		var framesCoq, scriptsCoq []string
 		var input []byte
@@ -219,6 +229,29 @@ func TestVerifC10Conn(t *testing.T) {
 			sc := &vC10Script{ok: r.Intn(14) != 0, main: g.streamHops(id)}
 			if nf >= 10 && r.Intn(4) != 0 {
 				sc = &vC10Script{ok: true, main: []vC10Hop{{vC10HopWrite, g.payload(id, 200+r.Intn(700))}}}
+			}
+			if sweep {
+				pkt = pkt[:12:12]
+				copy(pkt[2:], []byte{byte(r.Intn(2)), 0, 0, 1, 0, 0, 0, 0, 0, 0})
+				pkt = append(pkt, g.payload(id, r.Intn(12))...)
+				size := 0
+				switch {
+				case i < sweepAt:
+					room := tcpDrainSize - staged - 2*(sweepAt-i) - 64*(sweepAt-i)
+					size = 32 + r.Intn(max(1, room/(sweepAt-i)))
+				case i == sweepAt:
+					size = tcpDrainSize + sweepDelta - staged - 2
+				default:
+					size = 12 + r.Intn(300)
+				}
+				if size < 2 {
+					size = 2
+				}
+				if i <= sweepAt {
+					staged += 2 + size
+				}
+				sc = &vC10Script{ok: true, main: []vC10Hop{{vC10HopWrite, g.payload(id, size)}}}
+				kinds[fmt.Sprintf("sweep-drain%+d", sweepDelta)] = 1
 			}
 			h.scripts[id] = sc
 			frames = append(frames, pkt)
@@ -269,8 +302,11 @@ func TestVerifC10Conn(t *testing.T) {
 			}
 			kinds["read-per-frame"]++
 		}
+		if sweep {
+			reads = nil
+		}
 		var budgets []int
-		if r.Intn(5) == 0 {
+		if !sweep && r.Intn(5) == 0 {
 			for i := 0; i < 1+r.Intn(6); i++ {
 				budgets = append(budgets, 0)
 			}
@@ -278,7 +314,7 @@ func TestVerifC10Conn(t *testing.T) {
 			kinds["write-fails"]++
 		}
 		var arms []bool
-		if r.Intn(7) == 0 {
+		if !sweep && r.Intn(7) == 0 {
 			for i := 0; i < r.Intn(8); i++ {
 				arms = append(arms, true)
 			}
@@ -317,6 +353,9 @@ func TestVerifC10Conn(t *testing.T) {
 		kind := "conn"
 		if nf >= 10 {
 			kind = "conn-burst"
+		}
+		if sweep {
+			kind = "conn-sweep"
 		}
 		if len(budgets) > 0 {
 			kind += "-wfail"
